@@ -40,6 +40,10 @@ def mkarg(spec):
         return TermId.from_curie(v)
     if kind == 'ident':
         return Ident(TermId.from_curie(v))
+    if kind in ('oterm', 'cterm'):
+        # an identified object that happens to be a term (obsolete / current) carrying that id: only its identifier counts
+        from hpotk.model import MinimalTerm
+        return MinimalTerm.create_minimal_term(TermId.from_curie(v), 'some term', [], kind == 'oterm')
     return OTHERS[v]
 
 
